@@ -147,7 +147,7 @@ def response_paths(doc: DocumentNode, op: OperationDefinitionNode) -> Dict[Tuple
                 info["typed"] = info["typed"] and typed
                 info["field_directive"] = info["field_directive"] or cond(sel)
                 if sel.selection_set:
-                    visit(sel.selection_set, p, c, False, stack)
+                    visit(sel.selection_set, p, False, False, stack)  # a child is unconditional *given* its parent is present
             elif isinstance(sel, InlineFragmentNode):
                 visit(sel.selection_set, path, conditional or cond(sel), typed or sel.type_condition is not None, stack)
             elif isinstance(sel, FragmentSpreadNode):
@@ -275,7 +275,7 @@ def corruptions(data: Dict[str, Any], types: Dict[Tuple, Any], rpaths: Dict[Tupl
             field_path = field_path[:-1]
         st = (static_types or {}).get(key_path(field_path))
         agrees = static_types is None or (st is not None and st == {str(types.get(field_path))})
-        if isinstance(t, GraphQLNonNull) and (unconditional or not is_key) and agrees:
+        if isinstance(t, GraphQLNonNull) and ((unconditional and info["count"] == 1) or not is_key) and agrees:
             out.append(("null-at-nonnull", path, set_at(data, path, None)))
         if value is None:
             continue
